@@ -97,5 +97,6 @@ fixed('F21', 'C13', '6c71f70', 'ObjectiveMinimizeMakespan: solve(); solve() -> s
 fixed('F24', 'C16', '366875c', "SchedulingSolver(optimizer='optimize').export_to_smt2 raised AttributeError: to_smt2")
 fixed('F39', 'C08', 'c9f7563', 'IndicatorEarliness counted due - (-k) for an unscheduled optional task')
 fixed('F40', 'C11', 'c7ed2c8', 'an unscheduled optional task with delay_in >= its task number was reported with the worker among its assigned resources')
+fixed('F37', 'C15', '30e65c9', "optimizer='optimize' with optimize_priority='weight' built the equivalent weighted objective but never called minimize/maximize: a non-optimal schedule was returned (weighted sum 56 where 14 is optimal)")
 json.dump({'findings': F}, open('/verif/known_findings.json', 'w'), indent=1)
 print(len(F), 'findings written')
